@@ -53,13 +53,24 @@ def oracle_c04(rec):
 
 
 def bad_list_cases(rnd, n):
-    """transition lists that put positive weight on an incompatible descriptor: must end in an error, never a bond"""
+    """transition lists that put positive weight on every slot in turn - compatible or not ($, <, > on repeat units and on
+    end groups, same id and bond order): weight on an incompatible descriptor must end in an error, never in a bond"""
     out = []
-    for _ in range(n):
-        # A.< A.> B.< B.>  with A.> listing weight on A.> itself / B.> (same direction: incompatible)
+    slots = 7     # A.<  A.>  B.$  B.$  E.<  E.$  E.>
+    ids = ["", "1"]
+    for k in range(n):
+        i = ids[k % 2]
         w = rnd.choice(["1", "2", "0.5"])
-        bad = rnd.choice(["0 %s 0 0" % w, "0 0 0 %s" % w, "0 %s 0 %s" % (w, w)])
-        text = "C{[>][<]CC[>|%s|], [<]CO[>] [<]}|uniform(10, 60)|C" % bad
+        hot = k % slots
+        second = rnd.randrange(slots) if rnd.random() < 0.4 else hot
+        lst = " ".join(w if j in (hot, second) else "0" for j in range(slots))
+        which = rnd.choice(["gt", "lt"])
+        a_lt = f"[<{i}|{lst}|]" if which == "lt" else f"[<{i}]"
+        a_gt = f"[>{i}|{lst}|]" if which == "gt" else f"[>{i}]"
+        left = f"[>{i}]" if which == "gt" else f"[<{i}]"
+        # the prefix's open descriptor has the left terminal's symbol; it enters A through the conjugate descriptor, leaving the listed one open
+        a = f"{a_lt}CC{a_gt}"
+        text = f"F{{{left} {a}, [${i}]CO[${i}] ; [<{i}]C, [${i}]Br, [>{i}]N []}}|uniform(20, 90)|"
         c = genrun.parse_case(text, "bad-list")
         if c is not None:
             out.append(c)
@@ -73,7 +84,7 @@ def main():
     quick = ck.tier == "quick"
     cases = genrun.corpus_cases()
     cases += genrun.gen_cases(rnd, 120 if quick else 2500)
-    cases += bad_list_cases(rnd, 6 if quick else 40)
+    cases += bad_list_cases(rnd, 28 if quick else 280)
     recs = genrun.run_batch(ck, cases, seeds_per_case=2 if quick else 4, what=("struct", "mass", "choices"), seed_base=ck.seed * 7919,
                             oracles=[oracle_c04], forced=genrun.cap_targets)
     for rec in recs:
